@@ -191,6 +191,8 @@ class NormDomain(Domain):
             if isinstance(op, ast.NotEq) and ra == rb:
                 return False
             d = ra - rb
+            if isinstance(op, (ast.Eq, ast.NotEq)) and d.num.is_const() and not d.num.is_zero() and not d.den.is_const():
+                return isinstance(op, ast.NotEq)          # c / (anything) with c a non-zero number is not zero
             nz = getattr(self, 'nonzero', None)
             if nz and len(d.num.t) == 1:
                 (m, c), = d.num.t.items()
